@@ -28,3 +28,4 @@ def x_ng(report):
 
 
 EXTRACTORS = [("ng_reader", x_ng)]
+SERVES = ["C20"]
